@@ -49,6 +49,8 @@ def main(argv):
         print(f"ANALYSIS-ERROR property={pid} cannot load checker: {e}")
         traceback.print_exc()
         return 2
+    from verif.rules import shapeexec
+    shapeexec.THOROUGH[0] = (tier == "thorough")   # the finite grids of the partial-evaluation rules grow with the tier
     return run_check(pid, tier, mod.run, seed, replay)
 
 
